@@ -1,0 +1,46 @@
+//go:build verif
+
+// Copyright 2023 StreamNative, Inc.
+//
+// Licensed under the Apache License, Version 2.0 (the "License");
+// you may not use this file except in compliance with the License.
+// You may obtain a copy of the License at
+//
+//     http://www.apache.org/licenses/LICENSE-2.0
+//
+// Unless required by applicable law or agreed to in writing, software
+// distributed under the License is distributed on an "AS IS" BASIS,
+// WITHOUT WARRANTIES OR CONDITIONS OF ANY KIND, either express or implied.
+// See the License for the specific language governing permissions and
+// limitations under the License.
+
+package server
+
+import (
+	"log/slog"
+
+	"google.golang.org/grpc/health"
+
+	"github.com/oxia-db/oxia/proto"
+)
+
+// VerifInternalRPC is the set of coordination and replication handlers of a storage node.
+type VerifInternalRPC interface {
+	proto.OxiaCoordinationServer
+	proto.OxiaLogReplicationServer
+}
+
+// NewVerifInternalRPC builds the real internal RPC dispatcher of a storage node (the code in
+// internal_rpc_server.go) over the given shards director without opening any socket, so that the
+// verification harness can deliver coordination and replication messages in-process, over nodes
+// assembled from wrapped WAL/KV factories. Only compiled with the "verif" build tag.
+func NewVerifInternalRPC(shardsDirector ShardsDirector, assignmentDispatcher ShardAssignmentsDispatcher) VerifInternalRPC {
+	return &internalRpcServer{
+		shardsDirector:       shardsDirector,
+		assignmentDispatcher: assignmentDispatcher,
+		healthServer:         health.NewServer(),
+		log: slog.With(
+			slog.String("component", "internal-rpc-server"),
+		),
+	}
+}
